@@ -1645,7 +1645,12 @@ impl TInputProtocol for TCompactInputProtocol<&mut Bytes> {
     #[inline]
     fn read_bool(&mut self) -> Result<bool, ThriftException> {
         match self.pending_read_bool_value.take() {
-            Some(b) => Ok(b),
+            Some(b) => {
+                // the value of a bool field lives in its header: reading it completes
+                // the field for the `*_len` bookkeeping as well
+                self.pending_read_bool_field_identifier = None;
+                Ok(b)
+            }
             None => {
                 let b: TCompactType = self.read_byte()?.try_into()?;
                 match b {
